@@ -142,8 +142,11 @@ scmdProcessOrCheck(Bool doit, SrcPos spos, String cmd)
 	}
 	else if ((s = scmdIsDirective(cmd, "quit")) != 0) {
 		/* Doesn't make sense unless under the interpreter */
-		if (doit)
+		if (doit) {
+			/* Errors reported so far must show in the exit status. */
+			if (comsgErrorCount() > 0) exitFailure();
 			exitSuccess();
+		}
 	}
 	else if ((s = scmdIsDirective(cmd, "int")) != 0) {
 		if (doit) {
